@@ -9,15 +9,19 @@ pub mod nd;
 pub mod probe;
 pub mod stubs;
 pub mod util;
+#[cfg(not(kani))]
+pub mod mreplay;
+pub mod drive;
 
 pub mod h {
+    pub mod c03;
     pub mod c12;
 }
 
 use nd::FileNd;
 
 pub fn lookup(name: &str) -> Option<fn(&mut FileNd)> {
-    let tables: &[&[(&str, fn(&mut FileNd))]] = &[h::c12::TABLE];
+    let tables: &[&[(&str, fn(&mut FileNd))]] = &[h::c03::TABLE, h::c12::TABLE];
     for t in tables {
         for (n, f) in t.iter() {
             if *n == name {
@@ -29,6 +33,6 @@ pub fn lookup(name: &str) -> Option<fn(&mut FileNd)> {
 }
 
 pub fn all_names() -> Vec<&'static str> {
-    let tables: &[&[(&str, fn(&mut FileNd))]] = &[h::c12::TABLE];
+    let tables: &[&[(&str, fn(&mut FileNd))]] = &[h::c03::TABLE, h::c12::TABLE];
     tables.iter().flat_map(|t| t.iter().map(|(n, _)| *n)).collect()
 }
